@@ -311,8 +311,39 @@ class DhcpHistory(Suite):
                 ops.append("t:%d" % rng.choice([1, 100, 301]))
         return "dhcp t0=%d cfg=%s ops=%s" % (1700000000, cfg.encode().hex(), ";".join(ops))
 
+    def gen_renew(self, rng, tier):
+        """one client renewing for hours: each renewal comes two thirds (or so) into the lease, so the lease keeps growing
+        until it meets the upper bound (24 hours by default) — and must stay there"""
+        base = 0xc0000200
+        sip = base + 1
+        cfg = "addresses: [192.0.2.0/28]\n"
+        mac = bytes([0, 0, 0x5e, 0, 0x53, rng.randrange(4)])
+        want = base + rng.randrange(2, 14)
+
+        def pkt(t, via_ciaddr):
+            m = {"op": 1, "htype": 1, "hops": 0, "xid": rng.randrange(2 ** 32), "secs": 0, "flags": 0,
+                 "ciaddr": want if via_ciaddr else 0, "yiaddr": 0, "siaddr": 0, "giaddr": 0, "chaddr": mac, "hlen": 6, "sname": b"", "file": b""}
+            opts = {53: bytes([t]), 55: bytes([1, 3, 51])}
+            if not via_ciaddr:
+                opts[50] = want.to_bytes(4, "big")
+                if t == 3:
+                    opts[54] = sip.to_bytes(4, "big")
+            m["opts"] = sorted(opts.items())
+            return "p:%d:%d:-:-:%s" % (sip, sip, hexs(dhcpwire.wire(m)))
+        ops = [pkt(1, False), pkt(3, False)]
+        lease = 300
+        for _ in range(rng.choice([10, 12, 14])):
+            step = max(1, lease * rng.choice([50, 60, 66, 66, 75]) // 100)
+            ops.append("t:%d" % step)
+            ops.append(pkt(3, rng.random() < 0.8))
+            lease = min(max(3 * step, 300), 86400)
+        return "dhcp t0=%d cfg=%s ops=%s" % (1700000000, cfg.encode().hex(), ";".join(ops))
+
     def gen(self, rng, n, tier):
-        return [self.gen_multi(rng, tier) if rng.random() < 0.08 else self.gen_one(rng, tier) for _ in range(n)]
+        def one():
+            r = rng.random()
+            return self.gen_multi(rng, tier) if r < 0.08 else (self.gen_renew(rng, tier) if r < 0.11 else self.gen_one(rng, tier))
+        return [one() for _ in range(n)]
 
     def nontrivial(self, inp, obs):
         return "ok~" in obs
